@@ -2567,34 +2567,46 @@ setattr_delegate(
     PyObject *temp;
     has_traits_object *delegate;
     has_traits_object *temp_delegate;
+    trait_object *temp_traitd;
     int i, result;
 
     /* Follow the delegation chain until we find a non-delegated trait: */
     daname = name;
     Py_INCREF(daname);
+    /* 'delegate' and 'traitd' are owned references throughout: the user code
+       called below (validators, handlers, a method computing the delegate)
+       may replace the delegate on its owner or remove the trait, and a
+       delegate computed by a method may have no other owner at all. */
     delegate = obj;
+    Py_INCREF(delegate);
+    Py_INCREF(traitd);
     for (i = 0;;) {
         dict = delegate->obj_dict;
         if ((dict != NULL)
             && ((temp_delegate = (has_traits_object *)PyDict_GetItem(
                      dict, traitd->delegate_name))
                 != NULL)) {
-            delegate = temp_delegate;
+            Py_INCREF(temp_delegate);
         }
         else {
             // Handle the case when the delegate is not in the instance
             // dictionary (could be a method that returns the real delegate):
-            delegate = (has_traits_object *)has_traits_getattro(
+            temp_delegate = (has_traits_object *)has_traits_getattro(
                 delegate, traitd->delegate_name);
-            if (delegate == NULL) {
+            if (temp_delegate == NULL) {
+                Py_DECREF(traitd);
+                Py_DECREF(delegate);
                 Py_DECREF(daname);
                 return -1;
             }
-            Py_DECREF(delegate);
         }
+        Py_DECREF(delegate);
+        delegate = temp_delegate;
 
         // Verify that 'delegate' is of type 'CHasTraits':
         if (!PyHasTraits_Check(delegate)) {
+            Py_DECREF(traitd);
+            Py_DECREF(delegate);
             Py_DECREF(daname);
             return bad_delegate_error2(obj, name);
         }
@@ -2603,18 +2615,26 @@ setattr_delegate(
         Py_DECREF(daname);
         daname = daname2;
         if (((delegate->itrait_dict == NULL)
-             || ((traitd = (trait_object *)dict_getitem(
+             || ((temp_traitd = (trait_object *)dict_getitem(
                       delegate->itrait_dict, daname))
                  == NULL))
-            && ((traitd = (trait_object *)dict_getitem(
+            && ((temp_traitd = (trait_object *)dict_getitem(
                      delegate->ctrait_dict, daname))
                 == NULL)
-            && ((traitd = get_prefix_trait(delegate, daname, 1)) == NULL)) {
+            && ((temp_traitd = get_prefix_trait(delegate, daname, 1))
+                == NULL)) {
+            Py_DECREF(traitd);
+            Py_DECREF(delegate);
             Py_DECREF(daname);
             return bad_delegate_error(obj, name);
         }
+        Py_INCREF(temp_traitd);
+        Py_DECREF(traitd);
+        traitd = temp_traitd;
 
         if (Py_TYPE(traitd) != ctrait_type) {
+            Py_DECREF(traitd);
+            Py_DECREF(delegate);
             Py_DECREF(daname);
             return fatal_trait_error();
         }
@@ -2638,12 +2658,17 @@ setattr_delegate(
                     }
                 }
             }
+            Py_DECREF(traitd);
+            Py_DECREF(delegate);
             Py_DECREF(daname);
 
             return result;
         }
 
         if (++i >= 100) {
+            Py_DECREF(traitd);
+            Py_DECREF(delegate);
+            Py_DECREF(daname);
             return delegation_recursion_error(obj, name);
         }
     }
